@@ -24,6 +24,7 @@ package mqtt
 //@ end
 
 //@ func wrapErrorWithRetry
+//@   params err retry failure
 //@   mode int
 //@   props C19
 //@   pure
@@ -34,6 +35,7 @@ package mqtt
 //@        asError(asRetryErr(result).errorInterface) != nil && asError(asRetryErr(result).errorInterface).Err == err
 
 //@ func (*errorWithRetry).Retry
+//@   params e ctx cli
 //@   mode int
 //@   props C12 C19
 //@   inline
@@ -41,6 +43,7 @@ package mqtt
 //@   ensures[C12,C19] same_request: evCount("fntype:retryFn") == 1 && evArg[*BaseClient]("fntype:retryFn", 0, 1) == cli && result == evRet[error]("fntype:retryFn", 0, 0)
 
 //@ func (*BaseClient).ValidateMessage
+//@   params c message
 //@   mode int
 //@   props C05
 //@   pure
@@ -50,6 +53,7 @@ package mqtt
 //@   ensures[C05] result == nil ==> message.QoS <= QoS2
 
 //@ func (*BaseClient).Publish
+//@   params c ctx message
 //@   mode int
 //@   props C05 C12
 //@   requires c != nil && message != nil && ctx != nil && c.Transport != nil
@@ -60,6 +64,7 @@ package mqtt
 //@   ensures[C12] first_dup0: evCount("publishImpl") == 1 ==> evArg[bool]("publishImpl", 0, 3) == false && evArg[*Message]("publishImpl", 0, 2) == message
 
 //@ func publishImpl
+//@   params ctx c message dup
 //@   mode int
 //@   props C01 C02 C07 C11 C12 C19
 //@   requires c != nil && ctx != nil && carriable(message) && c.Transport != nil
@@ -108,6 +113,7 @@ package mqtt
 //@   ensures[C19] not_connected: sig0 == nil ==> result == ErrNotConnected && evCount("(*BaseClient).write") == 0
 
 //@ func publishImpl$1
+//@   params ctx cli
 //@   mode int
 //@   props C12
 //@   requires cli != nil && ctx != nil && carriable(message) && cli.Transport != nil
@@ -116,6 +122,7 @@ package mqtt
 //@        evArg[bool]("publishImpl", 0, 3) == true && result == evRet[error]("publishImpl", 0, 0)
 
 //@ func publishImpl$2
+//@   params ctx cli
 //@   phase connected
 //@   mode int
 //@   props C02 C07 C11 C12
@@ -148,6 +155,7 @@ package mqtt
 // ---- subscribe / unsubscribe (C01, C07, C11, C15, C19) ----
 
 //@ func subscribeImpl
+//@   params ctx c subs
 //@   mode int
 //@   props C01 C07 C11 C15 C19
 //@   requires c != nil && ctx != nil && c.Transport != nil && subscribable(subs)
@@ -186,6 +194,7 @@ package mqtt
 //@   ensures[C19] not_connected: sig0 == nil ==> result1 == ErrNotConnected && evCount("(*BaseClient).write") == 0
 
 //@ func subscribeImpl$1
+//@   params ctx cli
 //@   mode int
 //@   props C01 C19
 //@   requires cli != nil && ctx != nil && cli.Transport != nil && subscribable(subs)
@@ -194,6 +203,7 @@ package mqtt
 //@        sameSlice(evArg[[]Subscription]("subscribeImpl", 0, 2), subs) && result == evRet[error]("subscribeImpl", 0, 1)
 
 //@ func unsubscribeImpl
+//@   params ctx c subs
 //@   mode int
 //@   props C01 C07 C11 C15 C19
 //@   requires c != nil && ctx != nil && c.Transport != nil && unsubscribable(subs)
@@ -226,6 +236,7 @@ package mqtt
 //@   ensures[C19] not_connected: sig0 == nil ==> result == ErrNotConnected && evCount("(*BaseClient).write") == 0
 
 //@ func unsubscribeImpl$1
+//@   params ctx cli
 //@   mode int
 //@   props C01 C19
 //@   requires cli != nil && ctx != nil && cli.Transport != nil && unsubscribable(subs)
